@@ -136,7 +136,10 @@ def oracle(case, impl):
             if out.startswith("ok "):
                 # whatever was accepted: its quantum is its smallest fraction
                 s, _, fr = out[3:].partition(" frac=")
-                registered[s] = parse_rat(fr)
+                # amounts are held on the grid of the DECLARED smallest fraction
+                # (the reported one only where none was given)
+                registered[s] = parse_rat(sf.split(":")[0]) if sf not in ("-", "bad") and \
+                    parse_rat(sf.split(":")[0]) > 0 else parse_rat(fr)
                 # decidable part of the validation: these must never be accepted
                 # (with an explicit minor unit the code only checks that the
                 # fraction's precision fits; zero / negative fractions are then
